@@ -621,6 +621,19 @@ func c18Run(c *Ctx) {
 			c18Judge(c, cs)
 		}
 	}
+	// logical operators among themselves and next to comparisons / arithmetic, both spellings
+	for _, o1 := range []string{"||", "&&", K["or"], K["and"], "==", "<", "+", "|", "&"} {
+		for _, o2 := range []string{"||", "&&", K["or"], K["and"], "==", "<", "+", "|", "&"} {
+			src := Lines(Print("1 "+o1+" 2 "+o2+" 0"), Print("0 "+o1+" 3 "+o2+" 4"), Print("0 "+o1+" 0 "+o2+" 5 "+o1+" 6"), Print("! 0 "+o1+" 1 "+o2+" - 1"))
+			cs := c18Case(c, r, "operator-chains", src, "")
+			if cs == nil {
+				continue
+			}
+			if c.Mine() {
+				c18Judge(c, cs)
+			}
+		}
+	}
 	// operator chains: every ordered pair of binary operators over operands for which the two
 	// possible groupings usually differ (so a parenthesisation that disagrees with the parser shows)
 	for _, o1 := range c02BinOps {
